@@ -569,6 +569,11 @@ class StructTree(Struct):
     def __init__(self, definition):  # pylint: disable=useless-super-delegation
         super().__init__(definition)
 
+    def has_default(self):
+        # A value of a struct with enumerated subtypes always names its
+        # subtype; there is no instance that could stand in for a missing one.
+        return False
+
 
 class Union(Composite):
     __slots__ = ("definition",)
